@@ -265,6 +265,52 @@ impl Check for C12 {
                 }
             }
             out.count("fixed_decoder_vectors", fixed.len() as u64);
+            // ECMA arrays are decoded as objects: a nest written with ECMA-array markers denotes the
+            // same value as the same nest written with object markers, at every depth - whatever
+            // nesting limit the decoder has must not depend on which of the two markers was used
+            for depth in (1usize..=140).chain([200, 255, 256, 257, 300].into_iter()) {
+                let build = |pick: &dyn Fn(usize) -> bool| -> Vec<u8> {
+                    let mut b = Vec::new();
+                    for i in 0..depth {
+                        if pick(i) {
+                            b.extend_from_slice(&[0x08, 0, 0, 0, 1, 0, 1, b'a']);
+                        } else {
+                            b.extend_from_slice(&[0x03, 0, 1, b'a']);
+                        }
+                    }
+                    b.push(0x05);
+                    for _ in 0..depth {
+                        b.extend_from_slice(&[0, 0, 9]);
+                    }
+                    b
+                };
+                let as_objects = build(&|_| false);
+                let variants: [(&str, Vec<u8>); 3] = [("all-ecma", build(&|_| true)), ("alternating", build(&|i| i % 2 == 0)), ("ecma-innermost-half", build(&|i| i >= depth / 2))];
+                out.eval(1);
+                let base = match lib_call(out, "rml_amf0::deserialize", || json!({"object_nest_depth": depth}), || amf::lib_decode(&as_objects)) {
+                    Some(r) => r.map(|x| x.0),
+                    None => continue,
+                };
+                for (name, bytes) in variants.iter() {
+                    let r = match lib_call(out, "rml_amf0::deserialize", || json!({"ecma_nest_depth": depth, "variant": name}), || amf::lib_decode(bytes)) {
+                        Some(r) => r.map(|x| x.0),
+                        None => continue,
+                    };
+                    let same = match (&base, &r) {
+                        (Ok(a), Ok(b)) => a == b,
+                        (Err(_), Err(_)) => true,
+                        _ => false,
+                    };
+                    if !same {
+                        out.violation(
+                            "ecma-array-nest-decodes-differently-from-the-same-object-nest",
+                            json!({"depth": depth, "variant": name, "object_nest": match &base { Ok(_) => "decodes".to_string(), Err(e) => e.clone() }, "ecma_nest": match &r { Ok(_) => "decodes".to_string(), Err(e) => e.clone() }}),
+                        );
+                        break;
+                    }
+                    out.count(if base.is_ok() { "ecma_nest_agrees_with_object_nest_decoded" } else { "ecma_nest_agrees_with_object_nest_refused" }, 1);
+                }
+            }
             return;
         }
         for i in 0..BATCH {
